@@ -144,7 +144,15 @@ pub fn draw(rng: &mut Rng, run_index: u64) -> MemFnSpec {
                 }
             }
         }
-        if mode == 0 && !needs_str(&func) && !b.is_empty() && rng.chance(1, 2) {
+        // the slice may end inside a character: a proper prefix of a multi-byte
+        // sequence (any lead, ED and F4 included) as the very last bytes
+        if !needs_str(&func) && rng.chance(1, 4) {
+            let c = char::from_u32(rng.pick(&[0x80u32, 0x7FF, 0x800, 0xD000, 0xD7FF, 0xE000, 0xFB1D, 0xFFFD, 0x10000, 0x3FFFF, 0x40000, 0x10FFFF, 0x5D0, 0x639])).unwrap_or('a');
+            let mut buf = [0u8; 4];
+            let e = c.encode_utf8(&mut buf).as_bytes();
+            let k = rng.range(1, e.len() - 1);
+            b.extend_from_slice(&e[..k]);
+        } else if mode == 0 && !needs_str(&func) && !b.is_empty() && rng.chance(1, 2) {
             let l = b.len();
             b[l - 1] = (run_index % 256) as u8;
         }
